@@ -34,6 +34,7 @@ type LiveOpts struct {
 	Password    string
 	Brief       bool
 	NoLogDir    bool // drc without -L
+	OnLine      func(k int, line string) // called when the device has received its k-th line
 	// Device behaviour knobs (legal variants).
 	HostKeyQ, NeedEnPw, NoEnable, PromptSp, PagerSet, WidthSet, LegalWarn, JoinReplies bool
 	SaveConfirm                                                                        bool
@@ -133,6 +134,7 @@ func (c *Ctx) LiveCisco(cs *CiscoCase, o LiveOpts, sched *tape.Tape) *LiveResult
 		Faults: o.Faults, LegalWarn: o.LegalWarn, SaveConfirm: o.SaveConfirm, SaveBusy: o.SaveBusy,
 		FaultSeq: -1, JoinReplies: o.JoinReplies,
 	}
+	dev.OnLine = o.OnLine
 	if o.Startup != nil {
 		dev.Startup = o.Startup.Clone()
 	} else {
